@@ -1,5 +1,6 @@
 """C16 -- affine charts, affine maps, subspace operations (C1, R1c, I1c, U1)."""
 from ..rules import chart_rules as R
+from ..rules import cache_rules as CA
 from ..rules import proj_rules as PR
 from ..rules import shape_rules as SH
 from ..rules import sibling_rules as SI
@@ -22,6 +23,7 @@ def run(ctx):
     ctx.do(n1, ["geometry_tools/projective.py"], scope=ctx.scope(ENTRIES))
     ctx.do(PR.rule_bm1)
     ctx.do(SH.rule_sh4)
+    ctx.do(CA.rule_c2, "ProjectiveObject", scope=ctx.scope(ENTRIES))
     ctx.do(SH.rule_sh7, only={
         "Point.projective_coords", "Point.affine_coords",
         "Point.in_affine_chart", "PointPair.endpoint_affine_coords",
